@@ -2,7 +2,11 @@
 trees (Node) and on binary trees with empty slots (BinaryNode).
 
 case = {"kind": "v"|"h"|"dot"|"mermaid", "binary": bool,
-        "tree": [name, [child | None, ...]]      (None = empty BinaryNode slot; a binary leaf has []),
+        "tree": [name, [child | None, ...]]      (None = empty BinaryNode slot; a binary leaf has []);
+                an optional third entry {"ns": {k: v}, "es": {k: v}} holds the node's dict-valued attributes
+                `ns` (node style) and `es` (edge style) used by tree_to_dot(node_attr=..., edge_attr=...),
+        "dot": {"node_colour", "node_shape", "edge_colour": str | None,
+                "node_attr", "edge_attr": None | "name" | "callable"}      (dot cases only; optional),
         "start": [child index, ...]              (the node the call starts from; raw slot indices),
         "start_mode": "object"|"path"            (call on the node object / on the root with its path),
         "max_depth": int (0 = no limit), "sep": str,
@@ -10,7 +14,8 @@ case = {"kind": "v"|"h"|"dot"|"mermaid", "binary": bool,
         "inter": bool (hyield_tree intermediate_node_name), "stratum": str}
 obs = v:       {"out": [[pre, fill, name], ...] | None, "printed": [line, ...]}
       h:       {"out": [row, ...] | None}
-      dot:     {"nodes": [[id, label], ...], "edges": [[src, dst], ...]}   (creation order, read from pydot)
+      dot:     {"nodes": [[id, label], ...], "edges": [[src, dst], ...],   (creation order, read from pydot)
+                "vattrs": [[[k, v], ...] per vertex], "eattrs": [[[k, v], ...] per edge]}   (sorted items)
       mermaid: {"lines": [flow line, ...], "flows": [[from_ref, from_label | None, to_ref, to_label], ...]}
 """
 import io
@@ -85,8 +90,8 @@ def path_names(t, sep):
 def cut(t, max_depth):
     """what get_subtree leaves of t (max_depth >= 1)"""
     if max_depth == 1:
-        return [t[0], []]
-    return [t[0], [None if k is None else cut(k, max_depth - 1) for k in t[1]]]
+        return [t[0], []] + t[2:]
+    return [t[0], [None if k is None else cut(k, max_depth - 1) for k in t[1]]] + t[2:]
 
 
 # ---------------------------------------------------------------------------------------------
@@ -97,13 +102,14 @@ def _build(t, binary, sep, root=True):
     from bigtree.node.binarynode import BinaryNode
     from bigtree.node.node import Node
 
+    extra = {k: dict(v) for k, v in (t[2] if len(t) > 2 else {}).items()}
     if binary:
         kids = [None if k is None else _build(k, True, sep, False) for k in t[1]]
         while len(kids) < 2:
             kids.append(None)
-        n = BinaryNode(t[0], left=kids[0], right=kids[1])
+        n = BinaryNode(t[0], left=kids[0], right=kids[1], **extra)
     else:
-        n = Node(t[0], children=[_build(k, False, sep, False) for k in t[1]])
+        n = Node(t[0], children=[_build(k, False, sep, False) for k in t[1]], **extra)
     if root:
         n.sep = sep
     return n
@@ -176,11 +182,25 @@ def run_impl(prop, case):
             return {"out": None}
         return {"out": out}
     if kind == "dot":
-        g = export.tree_to_dot(start)
+        o = case.get("dot") or {}
+        kw = {}
+        for key in ("node_colour", "node_shape", "edge_colour"):
+            if o.get(key) is not None:
+                kw[key] = o[key]
+        for key, attr in (("node_attr", "ns"), ("edge_attr", "es")):
+            if o.get(key) == "name":
+                kw[key] = attr
+            elif o.get(key) == "callable":
+                kw[key] = (lambda a: (lambda nd: dict(nd.get_attr(a) or {})))(attr)
+        g = export.tree_to_dot(start, **kw)
         nodes = sorted(g.get_nodes(), key=lambda x: x.get_sequence())
         edges = sorted(g.get_edges(), key=lambda x: x.get_sequence())
+
+        def items(x):
+            return sorted([str(k), str(v)] for k, v in x.get_attributes().items())
         return {"nodes": [[str(x.get_name()), str(x.get("label"))] for x in nodes],
-                "edges": [[str(e.get_source()), str(e.get_destination())] for e in edges]}
+                "edges": [[str(e.get_source()), str(e.get_destination())] for e in edges],
+                "vattrs": [items(x) for x in nodes], "eattrs": [items(e) for e in edges]}
     if kind == "mermaid":
         text = export.tree_to_mermaid(start)
         lines = text.split("\n")
@@ -207,7 +227,22 @@ def _ctree(t):
     kids = t[1]
     if all(k is None for k in kids):
         kids = []
+    sty = t[2] if len(t) > 2 else {}
+    attrs = [f"({cstr('n' + k)}, VStr {cstr(v)})" for k, v in sorted(sty.get("ns", {}).items())] \
+        + [f"({cstr('e' + k)}, VStr {cstr(v)})" for k, v in sorted(sty.get("es", {}).items())]
+    if attrs:
+        return f"Na {cstr(t[0])} {clist(attrs)} {clist(_ctree(k) for k in kids)}"
     return f"Nd {cstr(t[0])} {clist(_ctree(k) for k in kids)}"
+
+
+def _cdotopts(o):
+    o = o or {}
+    return ("(DO " + " ".join(copt(o.get(k), cstr) for k in ("node_colour", "node_shape", "edge_colour"))
+            + f" {cbool(o.get('node_attr'))} {cbool(o.get('edge_attr'))})")
+
+
+def _cdict(d):
+    return clist(cpair(cstr(k), cstr(v)) for k, v in d)
 
 
 def _ctree_top(t):
@@ -243,8 +278,10 @@ def emit(prop, case, obs):
         return (f"CH {t} {_cpos(case['start'])} {int(case['max_depth'])} {cbool(case['inter'])} "
                 f"{_chsel(case['style'])} {copt(out)}")
     if kind == "dot":
-        return (f"CD {t} {cstr(case['sep'])} {clist(cpair(cstr(a), cstr(b)) for a, b in obs['nodes'])} "
-                f"{clist(cpair(cstr(a), cstr(b)) for a, b in obs['edges'])}")
+        return (f"CD {t} {cstr(case['sep'])} {_cdotopts(case.get('dot'))} "
+                f"{clist(cpair(cstr(a), cstr(b)) for a, b in obs['nodes'])} "
+                f"{clist(cpair(cstr(a), cstr(b)) for a, b in obs['edges'])} "
+                f"{clist(_cdict(d) for d in obs['vattrs'])} {clist(_cdict(d) for d in obs['eattrs'])}")
     if kind == "mermaid":
         fl = clist(f"({cstr(a)}, {copt(b, cstr)}, {cstr(c)}, {cstr(d)})" for a, b, c, d in obs["flows"])
         return f"CM {t} {clist(cstr(l) for l in obs['lines'])} {fl}"
@@ -396,6 +433,35 @@ def _concat_tree(rng):
     return root
 
 
+NODE_STY = {"style": ["filled", "dashed", "bold"], "fillcolor": ["gold", "red"], "shape": ["diamond", "box"],
+            "color": ["black", "green"]}
+EDGE_STY = {"label": ["first", "second", "edge label", "x"], "style": ["bold", "dashed"], "color": ["black", "red"]}
+
+
+def _decorate(rng, case):
+    """tree_to_dot options and heterogeneous per-node style dictionaries (differing key sets)"""
+    o = {"node_colour": rng.choice([None, None, "gold", ""]), "node_shape": rng.choice([None, None, "circle"]),
+         "edge_colour": rng.choice([None, None, "blue"]),
+         "node_attr": rng.choice([None, None, "name", "callable"]),
+         "edge_attr": rng.choice([None, "name", "name", "callable"])}
+    case["dot"] = o
+    case["stratum"] += "/styled"
+
+    def pick(table, p):
+        return {k: rng.choice(vs) for k, vs in table.items() if rng.random() < p}
+
+    def go(x):
+        d = {}
+        r = rng.random()
+        if r < 0.5:
+            d["es"] = pick(EDGE_STY, 0.45)
+        if rng.random() < 0.35:
+            d["ns"] = pick(NODE_STY, 0.4)
+        kids = [None if k is None else go(k) for k in x[1]]
+        return [x[0], kids, d] if d else [x[0], kids]
+    case["tree"] = go(case["tree"])
+
+
 def gen_case(rng, kind=None):
     kind = kind or rng.choices(["v", "h", "dot", "mermaid"], weights=[36, 36, 16, 12])[0]
     binary = rng.random() < 0.2
@@ -430,6 +496,8 @@ def gen_case(rng, kind=None):
             mine = pn[tuple(case["start"])]
             if sum(1 for v in pn.values() if v.endswith(mine)) == 1:
                 case["start_mode"] = "path"
+    if kind == "dot" and rng.random() < 0.6:
+        _decorate(rng, case)
     if kind == "v":
         r = rng.random()
         if r < 0.55:
@@ -514,6 +582,10 @@ TWO_SINGLE = ["r", [["aaa", [["p", []], ["q", []]]], ["b", [["c", [["d", []]]], 
 BANDS = ["r", [["aaaaaa", [["b", [["cccc", []]]]]], ["d", [["eeeeeeee", []], ["f", [["g", []]]]]]]]
 DEEP4 = ["r", [["a", [["b", [["c", [["d", []], ["e", []]]], ["f", []]]], ["g", []]]], ["h", [["i", [["j", []]]]]]]]
 BIN = ["a", [None, ["b", [["c", []], None]]]]
+# only some links carry a label / a style; repeated names; one node with its own node style
+STYLED = ["a", [["b", [["d", []], ["e", [["b", []]], {"es": {"label": "second", "style": "dashed"}}]],
+                 {"es": {"label": "first"}, "ns": {"shape": "diamond"}}],
+                ["c", [["d", [], {"es": {"color": "red"}}], ["f", [], {"ns": {"fillcolor": "red", "style": "filled"}}]]]]]
 # repeated names below ancestors whose names concatenate identically (ab+c / a+bc / abc)
 CONCAT = ["r", [["ab", [["c", [["x", []]]]]], ["a", [["bc", [["x", []], ["y", []]]], ["b", [["c", [["x", []]]]]]]],
                 ["abc", [["x", [["x", []]]]]], ["d", [["x", []]]]]]
@@ -543,6 +615,13 @@ def corpus(prop):
     for sep in ("/", "-", "."):
         out.append(("concat-ancestors", _mk("dot", CONCAT, sep=sep)))
     out.append(("concat-ancestors", _mk("mermaid", CONCAT)))
+    for na in (None, "name", "callable"):
+        for ea in ("name", "callable"):
+            for ec in (None, "blue"):
+                out.append(("styled-edges", _mk("dot", STYLED, dot={
+                    "node_colour": None, "node_shape": None, "edge_colour": ec, "node_attr": na, "edge_attr": ea})))
+    out.append(("styled-defaults", _mk("dot", STYLED, dot={
+        "node_colour": "gold", "node_shape": "circle", "edge_colour": "blue", "node_attr": "name", "edge_attr": None})))
     out.append(("single", _mk("v", ["a", []])))
     out.append(("single", _mk("h", ["a", []])))
     out.append(("single", _mk("dot", ["a", []])))
@@ -614,11 +693,11 @@ def shrink_candidates(prop, case):
                 rest[i] = None
                 if all(r is None for r in rest):
                     rest = []
-                yield [x[0], rest]
+                yield [x[0], rest] + x[2:]
             else:
-                yield [x[0], x[1][:i] + x[1][i + 1:]]
+                yield [x[0], x[1][:i] + x[1][i + 1:]] + x[2:]
             for v in variants(k):
-                yield [x[0], x[1][:i] + [v] + x[1][i + 1:]]
+                yield [x[0], x[1][:i] + [v] + x[1][i + 1:]] + x[2:]
 
     def valid_start(tree, pos):
         try:
@@ -630,6 +709,27 @@ def shrink_candidates(prop, case):
         c = dict(case); c["start"] = []; c["start_mode"] = "object"; yield c
     if case["max_depth"]:
         c = dict(case); c["max_depth"] = 0; yield c
+    if case.get("dot"):
+        c = dict(case); c.pop("dot"); yield c
+        for key, val in case["dot"].items():
+            if val is not None:
+                c = dict(case); c["dot"] = dict(case["dot"]); c["dot"][key] = None; yield c
+
+        def strip_one(x):
+            """trees with one node's style dictionaries (or one entry of them) removed"""
+            if len(x) > 2:
+                yield [x[0], x[1]]
+                for which in ("ns", "es"):
+                    for k in sorted(x[2].get(which, {})):
+                        d = {w: dict(v) for w, v in x[2].items()}
+                        del d[which][k]
+                        yield [x[0], x[1], d]
+            for i, k in enumerate(x[1]):
+                if k is not None:
+                    for v in strip_one(k):
+                        yield [x[0], x[1][:i] + [v] + x[1][i + 1:]] + x[2:]
+        for v in strip_one(t):
+            c = dict(case); c["tree"] = v; yield c
     if case["style"] != {"t": "name", "v": "const"} and case["kind"] in ("v", "h"):
         c = dict(case); c["style"] = {"t": "name", "v": "const"}; yield c
     for k in t[1]:
@@ -640,7 +740,7 @@ def shrink_candidates(prop, case):
             c = dict(case); c["tree"] = v; c["start_mode"] = "object"; yield c
 
     def rename(x, old, new):
-        return [new if x[0] == old else x[0], [None if k is None else rename(k, old, new) for k in x[1]]]
+        return [new if x[0] == old else x[0], [None if k is None else rename(k, old, new) for k in x[1]]] + x[2:]
     for nm in sorted({x[0] for _, x in tnodes(t)}):
         if len(nm) > 1:
             short = nm[0]
@@ -663,7 +763,8 @@ def nontrivial(prop, case, obs):
 
 
 def sample(prop, case, obs):
-    return {"case": {k: case[k] for k in ("kind", "binary", "tree", "start", "start_mode", "max_depth", "style", "inter")},
+    return {"case": {k: case.get(k) for k in ("kind", "binary", "tree", "start", "start_mode", "max_depth", "style",
+                                              "inter", "dot")},
             "observed": obs}
 
 
